@@ -3,6 +3,7 @@ From Cctp Require Import Lib.Bytes Lib.SMap Lib.Text Lib.Bech32.
 From Cctp Require Import Model.Codec Model.State Model.Attest Model.Ledger Model.Handlers Model.Chain.
 From Cctp Require Import Proofs.MonadFacts Proofs.FlowFacts Proofs.HistoryFacts Proofs.DecisionFacts.
 From Cctp Require Import Vectors.Examples.
+From Cctp Require Import Gen.GoH_ReceiveMessage.
 
 (* the mint-side conditions, consulted only for messages addressed to the CCTP module *)
 Definition mint_conditions (e : env) (c : chain) (plan : list directive) (m : message) : Prop :=
@@ -98,7 +99,13 @@ Qed.
 Example C03_conditions_satisfiable : receive_conditions ex_env2 ex_chain2 [] ex_alice (ex_message 6) (repeat x00 65).
 Proof. apply C03_receive_iff. exact (proj1 ex_receive_ok). Qed.
 
+(* ReceiveMessage as translated from the Go source (attestation check, decoding, nonce marking, mint branch, events) is the model handler the acceptance theorem is about (go_X_ok: forall e request h, eq_or_unmodelled (go_X e request h) (handler e (X request) h): same result and same state wherever the model gives a verdict at all, i.e. except on denominations outside the character set the model folds; for the two helpers the right-hand side is send_message / deposit_for_burn). The statement is about the Gallina program that tools/goextract TRANSLATED from the Go source of /repo on this run (Gen/GoH_*.v, Gen/GoF_*.v; meaning of the Go constructs: Gen/GoSem.v). For a function the translator could not read the conjunct is True (Gen/<file> names the reason, the evidence lists it) and the tie for it is the differential execution alone. *)
+Theorem C03_go_receive_handler_is_the_model :
+  go_ReceiveMessage_ok.
+Proof. exact go_ReceiveMessage_ok_proof. Qed.
+
 Print Assumptions C03_receive_iff.
 Print Assumptions C03_receive_fail_no_effect.
 Print Assumptions C03_non_module_receive_ignores_mint_side.
 Print Assumptions C03_caller_condition.
+Print Assumptions C03_go_receive_handler_is_the_model.
